@@ -15,7 +15,7 @@ out=$here/seeded-equivalent/RESULTS.tsv
 for d in "$here"/seeded-equivalent/*/; do
     id=$(basename "$d")
     [ -f "$d/patch.diff" ] || continue
-    commit=$(python3 -c "import json,sys;m=json.load(open(sys.argv[1]));print(m.get('base_commit',''))" "$d/meta.json")
+    commit=$(python3 -c "import json,sys;m=json.load(open(sys.argv[1]));print((m.get('base_commit','') or '').split(' ')[0])" "$d/meta.json")
     git -C "$base/repo" checkout -q -- .
     git -C "$base/repo" checkout -q --detach "${commit:-$(git -C /repo rev-parse HEAD)}"
     if ! git -C "$base/repo" apply "$d/patch.diff" 2>/dev/null; then echo "$id	patch-failed	" | tee -a "$base/RESULTS.tmp"; continue; fi
